@@ -2,6 +2,7 @@ import FFS.Driver.Rlp
 import FFS.Driver.Secp
 import FFS.Driver.Tx
 import FFS.Driver.Eth
+import FFS.Driver.Abi
 open Lean FFS FFS.Driver
 
 def dispatch (op : String) (j : Json) : Json :=
@@ -22,6 +23,7 @@ def dispatch (op : String) (j : Json) : Json :=
   | "eth.hexint" => opEthHexInt j
   | "eth.addr" => opEthAddr j
   | "eth.hexbytes" => opEthHexBytes j
+  | "abi.validate" => opAbiValidate j
   | _ => Json.mkObj [("bad", "op")]
 
 partial def loop (hin : IO.FS.Stream) (hout : IO.FS.Stream) : IO Unit := do
